@@ -9,8 +9,11 @@ import json
 from harness.core import Prop
 from harness.props import c18
 
+import contextvars
+
 TYPES = ['r', 's', 'c', 'f', 'm']
 _loop = None
+LABEL = contextvars.ContextVar('c19_label', default='judged')      # which request a handler run belongs to
 
 
 def loop():
@@ -44,7 +47,8 @@ def make_handler(hid, params, ty, log):
                 kinds.append('D')
             else:
                 kinds.append('?')
-        log.append((h, kinds))
+        if LABEL.get() == 'judged':
+            log.append((h, kinds))
         if ty == 'r':
             return Payload(b'ok')
         if ty == 's':
@@ -69,7 +73,7 @@ class C19(Prop):
     design_ref = '§5 C19'
     rule = ('route tables: every subset of the five routable types registered for a route, independently every subset with an unknown-route handler (exhaustive 32x32 on a '
             'core request set) plus random tables with several routes and generated handler signatures; requests of all five types with the route entry first/middle/last/absent/'
-            'empty/duplicated, authentication none/accepted/rejected (simple and bearer), verifier configured or not, unparseable metadata; non-trivial = verifier configured or '
+            'empty/duplicated, authentication none/accepted/rejected (simple and bearer), verifier configured or not (the scripted verifier suspends once), unparseable metadata; half of the random cases are preceded by 1..3 earlier requests on the same handler instance (same or other credentials / type / route), the last of them optionally still in flight when the judged request arrives; non-trivial = verifier configured or '
             'route not registered for the type; distinct = distinct (table, request)')
     assumptions = ['handlers are coroutine functions registered through the RequestRouter decorators']
 
@@ -134,7 +138,17 @@ class C19(Prop):
             blob = None
             if rng.random() < 0.05:
                 blob = rng.choice(['ff', 'fe0000', '00', 'fe00000901'])
-            out.append({'ty': rng.choice(TYPES), 'ver': rng.choice(['none', 'std', 'std']), 'routes': routes, 'unknown': unknown, 'items': items, 'blob': blob})
+            case = {'ty': rng.choice(TYPES), 'ver': rng.choice(['none', 'std', 'std']), 'routes': routes, 'unknown': unknown, 'items': items, 'blob': blob}
+            # earlier requests on the same connection (same handler instance) must not influence this one: same or other credentials,
+            # same or other type / route; optionally still in flight (its verifier call suspended) when the judged request arrives
+            if rng.random() < 0.5:
+                before = []
+                for _ in range(rng.choice([1, 1, 2, 3])):
+                    its = list(items) if rng.random() < 0.6 else [{'k': 'route', 'tags': [rng.choice(names)]}] + ([auth[rng.choice(list(auth))]] if rng.random() < 0.8 else [])
+                    before.append({'ty': rng.choice(TYPES), 'items': its})
+                case['before'] = before
+                case['overlap'] = rng.random() < 0.3
+            out.append(case)
         return out
 
     @staticmethod
@@ -174,6 +188,7 @@ class C19(Prop):
 
         async def verifier(route, auth):
             verifier_calls.append(route)
+            await asyncio.sleep(0)          # a verifier that suspends (a lookup): other requests may arrive meanwhile
             ok = (isinstance(auth, AuthenticationBearer) and auth.token == b'g') or (isinstance(auth, AuthenticationSimple) and auth.username == b'u')
             if not ok:
                 raise Exception('rejected')
@@ -199,8 +214,35 @@ class C19(Prop):
             if case['ty'] == 'c':
                 return 'error-stream' if isinstance(res, tuple) and isinstance(res[0], ErrorStream) else 'channel'
             return 'none'
-        result = lp.run_until_complete(go())
-        return {'blob': blob.hex(), 'ran': [[h, k] for h, k in log], 'result': result, 'verifier_calls': len(verifier_calls)}
+        methods = {'r': handler.request_response, 's': handler.request_stream, 'c': handler.request_channel, 'f': handler.request_fire_and_forget,
+                   'm': handler.on_metadata_push}
+
+        async def earlier(req):
+            tok = LABEL.set('earlier')
+            try:
+                await methods[req['ty']](Payload(b'earlier', bytes(c18.C18._encode(req['items']))))
+            except BaseException:
+                pass
+            finally:
+                LABEL.reset(tok)
+
+        async def scenario():
+            before = case.get('before') or []
+            pending = []
+            for i, req in enumerate(before):
+                if case.get('overlap') and i == len(before) - 1:
+                    pending.append(asyncio.ensure_future(earlier(req)))     # still in flight when the judged request arrives
+                    await asyncio.sleep(0)
+                else:
+                    await earlier(req)
+            mark = len(log)
+            res = await go()
+            judged = list(log[mark:])
+            for p in pending:
+                await p
+            return res, judged
+        result, judged = lp.run_until_complete(scenario())
+        return {'blob': blob.hex(), 'ran': [[h, k] for h, k in judged], 'result': result, 'verifier_calls': len(verifier_calls)}
 
     def model_lines(self, case, obs):
         routes = '|'.join('%s:%s:%d:%s' % (t, rt, hid, ','.join(ps) or '-') for t, rt, hid, ps in case['routes']) or '-'
